@@ -7,6 +7,14 @@ VERIF = Path(__file__).resolve().parent.parent
 
 # id -> (implemented, category, technique, level text, level note, design ref)
 P = {
+    'C15': (True, 'exploration',
+            'controlled scheduler (sys.monitoring LINE gates + real flock taken non-blockingly) over the real cache code; offline history checker with unique values',
+            'Two callers: ALL gate-level schedules of every pair from {get, get_or_compute, forced get_or_compute} x {entry present, absent} x {same, separate cache object} are '
+            'enumerated by DFS (24 pairs, exhaustive per pair reported in evidence); three callers and all-lines gating: random and PCT-style schedules. The recorded history '
+            '(call/return steps, computer invocations, lock events, truncate/write steps, results) is checked offline: returned values are complete results of one computation, '
+            'no call raises, quiescent file is a complete entry, no needless recompute / NO_VALUE unless a write that began after the call\'s first step overlaps it.',
+            'Threads in one process (flock exclusion is per open file description, as between processes); interleavings inside a single write() are not split; JsonCache in quick, all three file caches in thorough.',
+            'DESIGN.md §3 C15'),
     'C05': (True, 'fault_enumeration',
             'source-free failpoints in an audit hook: crash before EVERY mutating file operation of a recorded execution, torn prefixes of every written file, raise points; post-fault oracle in a fresh process',
             'For each storable data class (JSON dict/list/scalars, numpy, pandas, generator, lazy generator, list of arrays, DirData, ContinuesData, legitimately empty results), for first '
